@@ -11,7 +11,7 @@
   Every theorem quantifies over EVERY `argsort` routine satisfying `IsArgsort` (a permutation of
   `range n` that sorts the keys; ties arbitrary) — numpy's unstable introsort included.
 -/
-import FcProofs.Lemmas.LexsortGeom
+import FcProofs.Lemmas.LexsortRelabel
 namespace Fc
 open Fc.C02 Fc.C02.Spec
 
@@ -246,17 +246,17 @@ theorem C02_canonical_points_identical_partial {as1 as2 : List Int → List Nat}
       L1.map (·.2) = L2.map (·.2) :=
   sortPoints_canonical_rows h1 h2 hy1 hy2 hn1 hn2 hdim hrel hdist
 
-/-- **C02_canonical_points, noise-free, from the geometric form of a relabelling (partial).**
+/-- **C02_canonical_points, noise-free, from the geometric form of a relabelling.**
     `SameGeometry m₁ m₂ σ`: the points of the two meshes correspond one-to-one (`σ`), corresponding
     points have identical coordinates and the same adjacent cell centres up to order — what permuting
     points, cells within a type and the cell-type blocks produces.  Then, under `PointHypP` on both
     sides and distinguishability, for any two `argsort` routines the sorted point sequence of `m₂` is
     the `σ`-image of that of `m₁`, position by position: identical sorted coordinates, and the two
     index maps differ exactly by the relabelling.
-    MISSING for the full statement: deriving `SameGeometry` from the index-level relation
-    `points₂ = points₁[ρ]`, `cells₂ = ρ⁻¹(cells₁)[cell permutation]` (pure index bookkeeping of the
-    kind proved in C08), and the noisy case (covered at key level by `C02_canonical_points_partial`). -/
-theorem C02_canonical_points_geom_partial {as1 as2 : List Int → List Nat} (h1 : IsArgsort as1)
+    (`SameGeometry` is derived from the index-level relation `Relabeled` in
+    FcProofs/Lemmas/LexsortRelabel.lean, see `C02_canonical_points`; the noisy case is covered at key
+    level by `C02_canonical_points_partial`.) -/
+theorem C02_canonical_points_geometric {as1 as2 : List Int → List Nat} (h1 : IsArgsort as1)
     (h2 : IsArgsort as2) {t1 t2 : MeshTol} {A B1 M1 B2 M2 : Nat} {m1 m2 : Mesh} {c1 c2 : List (List Int)}
     {σ : PItem → PItem} (hy1 : PointHypP t1 A B1 M1 m1 c1) (hy2 : PointHypP t2 A B2 M2 m2 c2)
     (hc : ∀ x, x ∈ c1 ↔ x ∈ c2) (geo : SameGeometry m1 m2 σ) (hn1 : m1.points ≠ []) (hn2 : m2.points ≠ [])
@@ -274,6 +274,28 @@ theorem C02_canonical_points_geom_partial {as1 as2 : List Int → List Nat} (h1 
   have : L1 = L := Option.some.inj eL
   subst this
   exact (geo.row a (pL.mem_iff.mp ha)).symm
+
+/-- **C02_canonical_points (noise-free, FULL).**  `Relabeled m₁ m₂ ρ`: mesh 2 stores the points of
+    mesh 1 in the order `ρ` (`points₂ = points₁[ρ]`, `ρ` a permutation) and, in any order and any
+    arrangement of cell-type blocks, the cells of mesh 1 with every corner renumbered through `ρ⁻¹`.
+    Then, under `PointHypP` on both sides (Sep; coincident points have finite adjacent centres) and
+    distinguishability of coincident points, for ANY two `argsort` routines: both point sorts succeed,
+    the sorted point sequence of mesh 2 is the relabelled sorted sequence of mesh 1 position by
+    position, and the sorted coordinates are IDENTICAL, point by point. -/
+theorem C02_canonical_points {as1 as2 : List Int → List Nat} (h1 : IsArgsort as1) (h2 : IsArgsort as2)
+    {t1 t2 : MeshTol} {A B1 M1 B2 M2 : Nat} {m1 m2 : Mesh} {c1 c2 : List (List Int)} {ρ : List Nat}
+    (hy1 : PointHypP t1 A B1 M1 m1 c1) (hy2 : PointHypP t2 A B2 M2 m2 c2)
+    (hc : ∀ x, x ∈ c1 ↔ x ∈ c2) (hrel : Relabeled m1 m2 ρ) (hn1 : m1.points ≠ [])
+    (hdist : ∀ a ∈ pitems m1, ∀ b ∈ pitems m1, kvec (KC A m1) m1.dim 0 a = kvec (KC A m1) m1.dim 0 b →
+      kvec (KM A c1 as1 t1 m1) m1.dim 0 a = kvec (KM A c1 as1 t1 m1) m1.dim 0 b → a = b) :
+    ∃ L1 L2, sortPointsItems as1 t1 m1 = some L1 ∧ sortPointsItems as2 t2 m2 = some L2 ∧
+      L1.map (relabelItem ρ) = L2 ∧ L1.map (·.2) = L2.map (·.2) := by
+  have hn2 : m2.points ≠ [] := by
+    intro h0
+    have hl : m2.points.length = m1.points.length := by rw [hrel.points, List.length_map, hrel.length]
+    rw [h0] at hl
+    exact hn1 (List.length_eq_zero_iff.mp hl.symm)
+  exact C02_canonical_points_geometric h1 h2 hy1 hy2 hc hrel.sameGeometry hn1 hn2 hdist
 
 /-! ## cells -/
 
